@@ -393,12 +393,15 @@ def merge(res, docs, by_uri, evs, responses, quiesce_marks, sess):
                     out.append({"ev": "Send", "k": "change", "d": s[1], "tok": s[2]})
                 else:
                     t = task_of_id.get(s[2], 0)
-                    if t:
-                        state["open"].add(t)
+                    if not t:
+                        continue         # never reached spawn_with_snapshot (session ended or hung before)
+                    state["open"].add(t)
                     out.append({"ev": "Send", "k": "req", "d": s[1], "t": t, "rk": "conv" if t in has_qd else "plain",
                                 "method": METHODS[s[3]]})
 
     def tok_for(doc, files):
+        if files is None:            # the probe could not read the store: its lock was held by a writer
+            return "LOCKED"
         h = files.get(doc.uri)
         return "ABSENT" if h is None else doc.tok_of_hash(h)
 
@@ -574,12 +577,20 @@ def run_sessions(out, seed, sids, tier, name, jobs=8, mutate_trace=None, report=
     base = vlib.workdir("c16-sess-" + name)
     results = []
 
+    hung = []
+
     def one(sid):
+        if len(hung) >= 3:           # the hang is established and reported; do not wait out the deadline 50 more times
+            r = SessionResult(sid, seed)
+            r.hung = r.skipped = True
+            return r
         rnd = random.Random(seed * 31 + sid)
         two = rnd.random() < (0.5 if tier == "quick" else 0.7)
         rounds = rnd.randrange(6, 11)
         r = run_session(base, sid, seed, two, rounds, mutate_trace)
         r.two_docs, r.rounds = two, rounds
+        if r.hung:
+            hung.append(sid)
         return r
     with ThreadPoolExecutor(jobs) as ex:
         results = list(ex.map(one, sids))
@@ -703,21 +714,38 @@ def run(out, tier, seed):
     mc(out, tier)
     nsess = 60 if tier == "quick" else 2000
     chunk = 60 if tier == "quick" else 100
-    n_acc = n_lines = n_req = n_edit = 0
-    for c0 in range(0, nsess, chunk):
-        sids = list(range(c0, min(nsess, c0 + chunk)))
-        results = run_sessions(out, seed, sids, tier, f"{c0}", jobs=8)
-        todo = [r for r in results if not r.hung and len(r.lines) > 1]
+    tot = {"acc": 0, "lines": 0, "req": 0, "edit": 0}
+
+    def check_chunk(c0, results):
+        todo = [r for r in results if len(r.lines) > 1]
+        k = 0
         # a rejected session stops the validation of the file: validate the rest again without it
         while todo:
-            verdict, bad = validate(out, todo, f"{c0}")
-            n_acc += sum(1 for v in verdict.values() if v == "accepted")
+            verdict, bad = validate(out, todo, f"{c0}-{k}")
+            tot["acc"] += sum(1 for v in verdict.values() if v == "accepted")
             todo = [r for r in todo if verdict[r.sid] == "unchecked"]
-        n_lines += sum(len(r.lines) for r in results)
-        n_req += sum(r.nreq for r in results)
-        n_edit += sum(r.nedit for r in results)
-        if c0 == 0:
-            out.cov["samples"] += results[0].lines[1:7]
+            k += 1
+        for r in results:                      # what the driver saw itself (hangs, divergence, diagnostics content)
+            for f, dt in r.problems:
+                out.report(f, dt)
+        tot["lines"] += sum(len(r.lines) for r in results)
+        tot["req"] += sum(r.nreq for r in results)
+        tot["edit"] += sum(r.nedit for r in results)
+
+    # TLC (one worker) validates chunk k while the sessions of chunk k+1 run
+    with ThreadPoolExecutor(2) as pool:
+        futs = []
+        for c0 in range(0, nsess, chunk):
+            sids = list(range(c0, min(nsess, c0 + chunk)))
+            results = run_sessions(out, seed, sids, tier, f"{c0}", jobs=8, report=False)
+            if c0 == 0:
+                out.cov["samples"] += results[0].lines[1:7]
+            futs.append(pool.submit(check_chunk, c0, results))
+            if sum(1 for r in results if r.hung) >= 3:
+                break                          # the server hangs: established, reported by check_chunk
+        for f in futs:
+            f.result()
+    n_acc, n_lines, n_req, n_edit = tot["acc"], tot["lines"], tot["req"], tot["edit"]
     f18_probe(out, seed)
     out.cov["traces_validated_against_impl"] += n_acc
     out.cov["evaluations"] += n_req + n_edit
